@@ -54,7 +54,7 @@ def line(getter, args, caps):
 # --------------------------------------------------------------------------
 # case generation, one list per getter group
 # --------------------------------------------------------------------------
-def gen_cases(rng, thorough, base_len, errs, exe_len=60):
+def gen_cases(rng, thorough, base_len, errs, exe_len=60, ev_len=60):
     g = {}
     full = 600 if thorough else 260          # value lengths swept with every cap
     nbig = 60 if thorough else 16
@@ -166,6 +166,12 @@ def gen_cases(rng, thorough, base_len, errs, exe_len=60):
         c.append(line("fsevent", [hx(ev_path(n))], all_caps(n)))
     for n in [255, 256, 1000, 2000, 4000, 4095]:
         c.append(line("fsevent", [hx(ev_path(n))], edge_caps(rng, n)))
+    # directories spelled with trailing slashes / dots, relative (e) and absolute (E); the harness lets an
+    # event on the watched directory itself be dispatched (chmod, loop run, callback) before the sweep
+    spelled = [b"d/", b"d//", b"d/./", b"d", b"./d/", b"dd/e/", b"d///", b"d/e/../", b"q" + rbytes(rng, 5, PRINT) + b"/"]
+    for sp in spelled:
+        c.append(line("fsevent", ["e" + sp.hex()], all_caps(len(sp))))
+        c.append(line("fsevent", ["E" + sp.hex()], all_caps(ev_len + 1 + len(sp))))
     g["fsevent"] = c
 
     c = [line("fspoll", ["-"], [1, 2, 3, 10])]
@@ -173,6 +179,9 @@ def gen_cases(rng, thorough, base_len, errs, exe_len=60):
         c.append(line("fspoll", [hx(rbytes(rng, n))], all_caps(n)))
     for n in biglens(130, 5000)[:8]:
         c.append(line("fspoll", [hx(rbytes(rng, n))], edge_caps(rng, n)))
+    for sp in [b"d/", b"d//", b"d/./", b"d", b"dd/e/"]:        # after a poll callback
+        c.append(line("fspoll", ["e" + sp.hex()], all_caps(len(sp))))
+        c.append(line("fspoll", ["E" + sp.hex()], all_caps(ev_len + 1 + len(sp))))
     g["fspoll"] = c
 
     c = []
@@ -536,7 +545,7 @@ def main():
         names = ["getenv", "homedir", "tmpdir", "hostname", "cwd", "fsevent", "fspoll", "ifname", "sockname",
                  "peername", "exepath", "title", "thread", "errname", "strerror"]
         base_len = {k: len(os.path.join(work, k)) for k in names}
-        groups = gen_cases(chk.rng, thorough, base_len["cwd"], errs, base_len["exepath"] + 30)
+        groups = gen_cases(chk.rng, thorough, base_len["cwd"], errs, base_len["exepath"] + 30, base_len["fsevent"])
         cdir = os.path.join(vf.VERIF, "corpus", "C19")
         if os.path.isdir(cdir):
             for fn in sorted(os.listdir(cdir)):
